@@ -8,10 +8,11 @@ import OdakModel.Exec.OpsSlicing
 import OdakModel.Exec.OpsFovea
 import OdakModel.Exec.OpsProp
 import OdakModel.Exec.OpsLoss
+import OdakModel.Exec.OpsCodec
 /-! `odakdrv`: reads one operation per line on stdin, prints the model's answer per line. -/
 namespace Odak.Exec
 
-def allOps : List (String × Handler) := opsIndex ++ opsWave ++ opsRot ++ opsPolar ++ opsRay ++ opsRays ++ opsColour ++ opsSlicing ++ opsFovea ++ opsProp ++ opsLoss
+def allOps : List (String × Handler) := opsIndex ++ opsWave ++ opsRot ++ opsPolar ++ opsRay ++ opsRays ++ opsColour ++ opsSlicing ++ opsFovea ++ opsProp ++ opsLoss ++ opsCodec
 
 def step (line : String) : String :=
   match (line.trimAscii.toString.splitOn " ").filter (· ≠ "") with
